@@ -23,6 +23,7 @@ import (
 	tcpcoder "github.com/plgd-dev/go-coap/v3/tcp/coder"
 	udpcoder "github.com/plgd-dev/go-coap/v3/udp/coder"
 
+	"verifharness/gen"
 	"verifharness/ref"
 	"verifharness/vr"
 )
@@ -191,13 +192,13 @@ func (c *checker) checkOne(name string, cd coder, stream bool, m ref.Msg, gs int
 		// header/option/marker boundaries ±1 and PRNG values
 		off := 4 + len(m.Token)
 		if stream {
-			off = size - bodyLen(m)
+			off = size - gen.BodyLen(m)
 		}
 		marks := []int{0, 1, 2, 3, 4, off - 1, off, off + 1, size - 1, size - 2, size - len(m.Payload) - 1, size - len(m.Payload), size - len(m.Payload) - 2}
 		p := off
 		prev := 0
 		for _, o := range m.Opts {
-			hl := 1 + extLen(int(o.ID)-prev) + extLen(len(o.Val))
+			hl := 1 + gen.ExtLen(int(o.ID)-prev) + gen.ExtLen(len(o.Val))
 			marks = append(marks, p-1, p, p+1, p+hl-1, p+hl, p+hl+1)
 			p += hl + len(o.Val)
 			prev = int(o.ID)
@@ -235,29 +236,6 @@ func (c *checker) checkOne(name string, cd coder, stream bool, m ref.Msg, gs int
 	if n, err := cd.Encode(lm, nil); size > 0 && (!errors.Is(err, message.ErrTooSmall) || n != size) {
 		c.viol("C01/"+name+"/short-buffer-result", fmt.Sprintf("Encode into nil = (%d,%v)", n, err), d)
 	}
-}
-
-func extLen(v int) int {
-	switch {
-	case v < 13:
-		return 0
-	case v < 269:
-		return 1
-	}
-	return 2
-}
-
-func bodyLen(m ref.Msg) int {
-	n := 0
-	prev := 0
-	for _, o := range m.Opts {
-		n += 1 + extLen(int(o.ID)-prev) + extLen(len(o.Val)) + len(o.Val)
-		prev = int(o.ID)
-	}
-	if len(m.Payload) > 0 {
-		n += 1 + len(m.Payload)
-	}
-	return n
 }
 
 func firstDiff(a, b []byte) int {
@@ -322,126 +300,6 @@ func (c *checker) checkPooled(name string, enc pool.Encoder, dec pool.Decoder, s
 	p.ReleaseMessage(back)
 }
 
-// ---------------------------------------------------------------- generator
-
-var deltaClasses = []int{1, 2, 12, 13, 14, 100, 268, 269, 270, 1000, 40000}
-var valLenClasses = []int{0, 1, 2, 12, 13, 14, 100, 268, 269, 270, 1034, 5000, 65803, 65804}
-var payClasses = []int{0, 0, 1, 2, 11, 12, 13, 14, 100, 255, 256, 267, 268, 269, 270, 1000, 1152, 65535, 65804, 65805, 65806, 70000}
-var midClasses = []uint16{0, 1, 255, 256, 32767, 32768, 65534, 65535}
-
-func fill(rnd *rand.Rand, n int) []byte {
-	b := make([]byte, n)
-	x := rnd.Uint32()
-	for i := range b {
-		x = x*1664525 + 1013904223
-		b[i] = byte(x >> 24)
-	}
-	return b
-}
-
-// genMsg generates one well-formed message. i drives the enumerated classes.
-func genMsg(rnd *rand.Rand, i int, big bool) ref.Msg {
-	var m ref.Msg
-	m.Type = uint8(i & 3)
-	m.Code = uint8(i >> 2)
-	m.Token = fill(rnd, (i/7)%9)
-	if rnd.Intn(3) == 0 {
-		m.MID = midClasses[rnd.Intn(len(midClasses))]
-	} else {
-		m.MID = uint16(rnd.Intn(65536))
-	}
-	nopts := []int{0, 1, 1, 2, 2, 3, 4, 6, 10, 20}[rnd.Intn(10)]
-	id := 0
-	budget := 70000
-	for k := 0; k < nopts; k++ {
-		var delta int
-		if k > 0 && rnd.Intn(4) == 0 {
-			delta = 0 // repeated option
-		} else if rnd.Intn(3) == 0 {
-			delta = 1 + rnd.Intn(30)
-		} else {
-			delta = deltaClasses[rnd.Intn(len(deltaClasses))]
-		}
-		if id+delta > 65535 {
-			delta = 65535 - id
-		}
-		if id+delta == 0 {
-			delta = 1
-		}
-		id += delta
-		var vl int
-		if lo, hi, known := ref.RegistryRange(uint16(id)); known {
-			// registry-legal length, biased to the bounds
-			switch rnd.Intn(4) {
-			case 0:
-				vl = lo
-			case 1:
-				vl = hi
-			default:
-				vl = lo + rnd.Intn(hi-lo+1)
-			}
-		} else {
-			vl = valLenClasses[rnd.Intn(len(valLenClasses))]
-			if !big && vl > 1034 {
-				vl = valLenClasses[rnd.Intn(11)]
-			}
-			if rnd.Intn(4) == 0 {
-				vl = rnd.Intn(300)
-			}
-		}
-		if vl > budget {
-			vl = 0
-		}
-		budget -= vl
-		m.Opts = append(m.Opts, ref.Opt{ID: uint16(id), Val: fill(rnd, vl)})
-	}
-	pl := payClasses[rnd.Intn(len(payClasses))]
-	if !big && pl > 1152 {
-		pl = payClasses[rnd.Intn(17)]
-	}
-	if rnd.Intn(4) == 0 {
-		pl = rnd.Intn(64)
-	}
-	m.Payload = fill(rnd, pl)
-	return m
-}
-
-// legalize returns m with every option value length made legal for the registry that applies
-// to (transport, code): on the stream transport the 7.xx signalling codes have their own
-// option registries (RFC 8323 section 5).
-func legalize(stream bool, m ref.Msg) ref.Msg {
-	out := m
-	out.Opts = append([]ref.Opt(nil), m.Opts...)
-	for i, o := range out.Opts {
-		lo, hi, known := ref.LegalRange(stream, m.Code, o.ID)
-		if !known {
-			continue
-		}
-		switch {
-		case len(o.Val) < lo:
-			out.Opts[i].Val = append(append([]byte(nil), o.Val...), make([]byte, lo-len(o.Val))...)
-		case len(o.Val) > hi:
-			out.Opts[i].Val = o.Val[:hi]
-		}
-	}
-	return out
-}
-
-// steer adjusts the payload so that the stream body length (options + marker + payload)
-// hits target exactly, when possible.
-func steer(rnd *rand.Rand, m ref.Msg, target int) (ref.Msg, bool) {
-	m.Payload = nil
-	ol := bodyLen(m)
-	switch {
-	case ol == target:
-		return m, true
-	case target-ol-1 >= 1:
-		m.Payload = fill(rnd, target-ol-1)
-		return m, true
-	}
-	return m, false
-}
-
 func TestRun(t *testing.T) {
 	rec := vr.New("C01", "structured generator: token length 0..8, code 0..255 and type 0..3 are cycled (enumerated), MIDs from a boundary set or PRNG, 0..20 options with number deltas from {0 (repeat),1..30,12,13,14,268,269,270,1000,40000}, registry-legal value lengths for known numbers (bounds favoured) and length classes {0,1,12,13,14,268,269,270,1034,5000,65803,65804} for unknown numbers, payload classes up to 70000 bytes; for the stream coder the body length is steered to 0,1,11,12,13,14,267,268,269,270,65803..65806. Each message runs through both coders and pool.Message. Distinct/non-trivial = distinct structural class signature (coder, token length, code class, option delta/length classes, payload class).")
 	defer rec.Flush(true)
@@ -460,11 +318,11 @@ func TestRun(t *testing.T) {
 				gs := seed*1_000_003 + int64(i)
 				rnd := rand.New(rand.NewSource(gs))
 				big := i >= n
-				m := genMsg(rnd, i, big)
+				m := gen.Msg(rnd, i, big)
 				vr.CaseLog(gs)
 				c.checkOne("udp", udpcoder.DefaultCoder, false, m, gs, rnd)
 				rec.Eval(classSig("udp", m))
-				mt := legalize(true, m)
+				mt := gen.Legalize(true, m)
 				c.checkOne("tcp", tcpcoder.DefaultCoder, true, mt, gs, rnd)
 				rec.Eval(classSig("tcp", mt))
 				if i%4 == 0 || big {
@@ -487,11 +345,11 @@ func TestRun(t *testing.T) {
 		hit := 0
 		for r := 0; r < reps*4 && hit < reps; r++ {
 			gs := seed*77 + int64(tg)*1000 + int64(r)
-			m := genMsg(rand.New(rand.NewSource(gs)), r*5+tg, false)
-			if bodyLen(ref.Msg{Opts: m.Opts}) > tg {
+			m := gen.Msg(rand.New(rand.NewSource(gs)), r*5+tg, false)
+			if gen.BodyLen(ref.Msg{Opts: m.Opts}) > tg {
 				m.Opts = nil
 			}
-			m2, ok := steer(rnd, m, tg)
+			m2, ok := gen.Steer(rnd, m, tg)
 			if !ok {
 				continue
 			}
